@@ -100,7 +100,7 @@ func (e *Env) Handler(id int, script []WOp) *Comp {
 	return &Comp{ID: id, Kind: KRoute, Script: script, env: e}
 }
 
-func (e *Env) NotFound(id int) *Comp { return &Comp{ID: id, Kind: K404, env: e} }
+func (e *Env) NotFound(id int) *Comp { return &Comp{ID: e.builderID(id), Kind: K404, env: e} }
 func (e *Env) TraceH(id int) *Comp   { return &Comp{ID: id, Kind: KTrace, env: e} }
 func (e *Env) Group404(id int) *Comp { return &Comp{ID: id, Kind: KGroup404, env: e} }
 
@@ -213,6 +213,8 @@ func (f *FaultSpec) makeValue(n int) any {
 		return fmt.Sprintf("injected-string-%d", n)
 	case "struct":
 		return injStruct{A: n, B: "injected"}
+	case "abort":
+		return http.ErrAbortHandler // net/http's own sentinel: "every panic value" includes it
 	}
 	return &InjectedPanic{N: n}
 }
@@ -450,9 +452,13 @@ func classifyPanic(r any) string {
 		return "nontermination"
 	case *InjectedPanic, *injErr, injStruct:
 		return "injected"
-	case runtime.Error:
-		return "runtime:" + v.Error()
 	case error:
+		if v == http.ErrAbortHandler {
+			return "injected"
+		}
+		if _, ok := v.(runtime.Error); ok {
+			return "runtime:" + v.Error()
+		}
 		if strings.HasPrefix(v.Error(), "injected-") {
 			return "injected"
 		}
@@ -619,7 +625,7 @@ const (
 
 func interceptorFunc(name string) func(string) bool {
 	switch name {
-	case "digit":
+	case "digit", "sim":
 		return func(s string) bool {
 			for i := 0; i < len(s); i++ {
 				if s[i] < '0' || s[i] > '9' {
